@@ -104,12 +104,12 @@ def mul(Y1, Y2):
 
     if teneva._is_num(Y1):
         Y = teneva.copy(Y2)
-        Y[0] *= Y1
+        Y[0] = Y[0] * Y1
         return Y
 
     if teneva._is_num(Y2):
         Y = teneva.copy(Y1)
-        Y[0] *= Y2
+        Y[0] = Y[0] * Y2
         return Y
 
     Y = []
@@ -190,6 +190,6 @@ def sub(Y1, Y2):
         Y2 = teneva.const(teneva.shape(Y1), -1.*Y2)
     else:
         Y2 = teneva.copy(Y2)
-        Y2[0] *= -1.
+        Y2[0] = Y2[0] * (-1.)
 
     return add(Y1, Y2)
